@@ -14,6 +14,7 @@ mod g;
 mod gen;
 mod model;
 mod props;
+mod rec;
 mod run;
 mod val;
 
